@@ -256,4 +256,35 @@ return ok
 """
         params = [("u1", "int"), ("u2", "int")] + ([("t", "int")] if pid == "M/args/L" else [])
         out.append(mk_case(f"c04.history.edit_in_place.{pid}", params, body, pre=[f"BU({L}, {', '.join(n for n, _ in params)})"], stubs=["sym_repr"]))
+    # paths bound to their document (source_data=doc), then modified: the modified copies read the caller's document itself
+    # (returned nodes are its nodes, edits made in place afterwards are seen), in both application orders
+    body = """
+doc = {'a': {'x': [1, u1]}, 'b': {'x': [4, 5, u2]}, 'c': 7}
+base = DataPath(MapValue(value=Value.is_instance(dict)), 'x', source_data=doc)
+conc = DataPath('a', 'x', source_data=doc)
+PT = (('map', V('is_instance', dict)), ('prim', 'x'))
+derived = {'all': base.all(), 'first': base.first(), 'last': base.last(), 'length': base.length(), 'length.first': base.length().first(),
+           'first.length': base.first().length(), 'last.length': base.last().length(), 'dtype.all': base.dtype().all(), 'conc.length': conc.length()}
+ok = True
+for step in range(2):
+    exp = ref_walk(PT, doc)
+    vals = [v for v, _ in exp]
+    got = base.get_data(return_paths=True)
+    ok = ok and note('unmodified bound path: the own nodes of the document', len(got) == len(exp) and all(g[0] is e[0] and follow(doc, g[1]) is g[0] for g, e in zip(got, exp)))
+    for name in ('all', 'first', 'last'):
+        g = derived[name].get_data(return_paths=True)
+        g = g if name == 'all' else [g]
+        e = exp if name == 'all' else ([exp[0]] if name == 'first' else [exp[-1]])
+        ok = ok and note(name + '(): the own nodes of the document at their true paths', len(g) == len(e) and all(a[0] is b[0] and follow(doc, a[1]) is a[0] for a, b in zip(g, e)))
+    ok = ok and same('length', derived['length'].get_data(), [len(v) for v in vals])
+    ok = ok and same('length.first / first.length', (derived['length.first'].get_data(), derived['first.length'].get_data()), (len(vals[0]), len(vals[0])))
+    ok = ok and same('last.length', derived['last.length'].get_data(), len(vals[-1]))
+    ok = ok and same('dtype.all', derived['dtype.all'].get_data(), [type(v) for v in vals])
+    ok = ok and same('concrete length', derived['conc.length'].get_data(), len(doc['a']['x']))
+    # the caller edits the document in place
+    doc['a']['x'].append(u2)
+    doc['b']['x'] = {'k': u1}
+return ok
+"""
+    out.append(mk_case("c04.bound.modified_after_binding", [("u1", "int"), ("u2", "int")], body, pre=[f"BU({L}, u1, u2)"], stubs=["sym_repr"]))
     return out
